@@ -25,6 +25,41 @@ func init() {
 }
 
 func c19Rules(tier string) []Rule {
+	rules := c19RulesBase(tier)
+	// instance types are ranked / truncated under the NodeClaim's own (pod-narrowed) requirements
+	rules = append(rules, core.Custom{ID: "C19.PROV5", Kind: "PROV", Run: func(w *core.World, id string) []core.Result {
+		const f = "(sched.Results).TruncateInstanceTypes"
+		fn := w.Fn(f)
+		if fn == nil {
+			return []core.Result{core.Anchor(id, "PROV", f)}
+		}
+		n := 0
+		for _, s := range w.SitesOr(fn, regexp.MustCompile(`^call \(cloudprovider\.InstanceTypes\)\.Truncate\(`), true, 1) {
+			c, ok := s.(*ssa.Call)
+			if !ok || len(c.Call.Args) < 3 {
+				continue
+			}
+			n++
+			a0, a1 := w.RenderD(c.Call.Args[0], 9), w.RenderD(c.Call.Args[len(c.Call.Args)-2], 9)
+			const suf = ".NodeClaimTemplate.InstanceTypeOptions"
+			if !strings.HasSuffix(a0, suf) || a1 != strings.TrimSuffix(a0, suf)+".NodeClaimTemplate.Requirements" {
+				return []core.Result{core.Bad(id, "PROV", "PROV:"+f+":truncate-requirements", w.InstrPos(s), "the options `"+clipStr(a0, 70)+"` are truncated under `"+clipStr(a1, 70)+"`, not under the same NodeClaim's requirements")}
+			}
+		}
+		if n == 0 {
+			return []core.Result{core.Bad(id, "PROV", "PROV:"+f+":truncate-requirements", w.Pos(fn.Pos()), "vacuous: no Truncate call")}
+		}
+		return []core.Result{core.OK(id, "PROV", "PROV:"+f+":truncate-requirements", n, "Truncate(nc.InstanceTypeOptions, nc.Requirements, max)")}
+	}})
+	// the pool's headroom is charged with what is left after the pod was added (a later pod of the same pass must not be
+	// pushed to a lighter pool by options the first pod already excluded)
+	rules = append(rules, POST{ID: "C19.POST4", Fn: "(*sched.Scheduler).addToNewNodeClaim", From: `^call \(\*sched\.NodeClaim\)\.Add\(`, Shallow: true,
+		Must: []string{`^mapupdate \$0\.remainingResources\[.*NodePoolName\] = sched\.subtractMax\(\$0\.remainingResources\[.*NodePoolName\], .*InstanceTypeOptions\)`}},
+		NOREACH{ID: "C19.NR1", Fn: "(*sched.Scheduler).addToNewNodeClaim", From: `^mapupdate \$0\.remainingResources\[.*NodePoolName\] = sched\.subtractMax\(`, Sink: `^call \(\*sched\.NodeClaim\)\.Add\(`})
+	return rules
+}
+
+func c19RulesBase(tier string) []Rule {
 	const (
 		cmpW = "@arg:utils/nodepool.OrderByWeight|^call sort\\.Slice\\(|1"
 		pns  = "(*prov.Provisioner).NewScheduler"
